@@ -27,6 +27,8 @@ Enabled(S, e) ==
     [] e.a = "DropTuple" -> e.y \in S.usertup
     [] e.a \in {"Drop", "ReadFpV", "Rename"} -> e.x \in LiveVec(S)
     [] e.a = "ConcatEmpty" -> e.x \in LiveVec(S) /\ DeadObjs(S) # {}
+    [] e.a = "WriteRow" -> e.x \in LiveTab(S) /\ e.y \in 1..S.tlen[e.x] /\ Len(e.vs) = Len(S.cols[e.x])
+                           /\ Cardinality(FreeSids(S)) >= Len(e.vs)
     [] e.a = "Write" -> e.x \in LiveVec(S) /\ FreeSids(S) # {} /\ e.z \in 1..Len(Contents(S, e.x))
     [] e.a = "NewTable" -> /\ DeadTabs(S) # {} /\ ToSetOf(e.vs) \subseteq LiveVec(S) /\ Len(e.vs) >= 1
                            /\ Cardinality(FreeSids(S)) >= Len(e.vs) + 1 /\ Cardinality(DeadObjs(S)) >= Len(e.vs)
@@ -43,6 +45,7 @@ Apply(S, e) ==
     [] e.a = "Copy"      -> CopyVec(S, e.x, OneSid(S))
     [] e.a = "Drop"      -> Drop(S, e.x)
     [] e.a = "ConcatEmpty" -> ConcatEmpty(S, e.x)
+    [] e.a = "WriteRow"  -> WriteRow(S, e.x, e.y, e.vs, KSids(S, Len(e.vs)))
     [] e.a = "Write"     -> WriteVec(S, e.x, e.z, e.w, OneSid(S))
     [] e.a = "ReadFpV"   -> ReadFpV(S, e.x)
     [] e.a = "NewTable"  -> NewTable(S, e.vs, KSids(S, Len(e.vs) + 1), KObjs(S, Len(e.vs)))
@@ -58,8 +61,8 @@ Apply(S, e) ==
 Clause(r, e) ==
   LET P == r.st  o == e.post IN
   IF r.res # e.res THEN
-       (IF e.a = "Write" /\ r.res = "Ok" /\ e.res = "Refused" THEN "spurious_refusal"
-        ELSE IF e.a = "Write" /\ r.res = "Refused" /\ e.res = "Ok" THEN "note_cow_instead_of_refusal"
+       (IF e.a \in {"Write", "WriteRow"} /\ r.res = "Ok" /\ e.res = "Refused" THEN "spurious_refusal"
+        ELSE IF e.a \in {"Write", "WriteRow"} /\ r.res = "Refused" /\ e.res = "Ok" THEN "note_cow_instead_of_refusal"
         ELSE IF e.a = "NewTable" \/ (e.a = "SetAttr" /\ r.res = "Err") THEN "ragged_outcome"
         ELSE IF e.a = "SetAttr" THEN "setattr_error"
         ELSE IF e.a = "Lookup" THEN "lookup"
